@@ -127,21 +127,42 @@ func runC18(c *Ctx) {
 			c.Unresolved("C18.O1", "metadata."+fn)
 			continue
 		}
-		sorted := false
+		var sortCall *ssa.Call
 		forEachInstr(f, func(in ssa.Instruction) {
 			if cl, ok := in.(*ssa.Call); ok {
 				if g := cl.Call.StaticCallee(); g != nil && inModule(g) && len(cl.Call.Args) == 1 && c.Path(cl.Call.Args[0], nil) == "$0" {
 					for _, cm := range cmps {
 						if cm.Parent() == g {
-							// sort precedes the loop: the call is in the entry block
-							if cl.Block() == f.Blocks[0] {
-								sorted = true
-							}
+							sortCall = cl
 						}
 					}
 				}
 			}
 		})
+		// the sort precedes every read of the list's elements (a length test before it is fine)
+		sorted := sortCall != nil
+		reads := 0
+		forEachInstr(f, func(in ssa.Instruction) {
+			var x ssa.Value
+			switch y := in.(type) {
+			case *ssa.IndexAddr:
+				x = y.X
+			case *ssa.Index:
+				x = y.X
+			case *ssa.Range:
+				x = y.X
+			case *ssa.Slice:
+				x = y.X
+			}
+			if x == nil || c.Path(x, nil) != "$0" {
+				return
+			}
+			reads++
+			if sortCall == nil || !instrDominates(sortCall, in) {
+				sorted = false
+			}
+		})
+		sorted = sorted && reads > 0
 		c.Check("C18.O1", fn+":sorted-before-use", sorted, f.Pos(), fn+" sorts its input with the checked comparator before building the list")
 	}
 	// version provider comparator: strict order on one key
@@ -310,23 +331,25 @@ func runC18(c *Ctx) {
 		want := []string{`[$0.includeBase false] -> ($1 + ("#" + $2))`, `[$0.includeBase true] -> ("#" + $2)`}
 		// the generic enumerator only handles comparison branches; fall back to a direct shape check
 		okG := false
-		var under, other string
+		var under, other *ssa.Return
 		for _, r := range returnsOf(goid) {
-			p := c.Path(r.Results[0], nil)
-			if p == `("#" + $2)` {
-				under = p
-			}
-			if p == `($1 + ("#" + $2))` {
-				other = p
+			switch c.concatForm(r.Results[0], nil) {
+			case `"#" ++ $2`:
+				under = r
+			case `$1 ++ "#" ++ $2`:
+				other = r
 			}
 		}
-		if under != "" && other != "" && len(returnsOf(goid)) == 2 {
-			// which branch is taken under includeBase
-			for _, b := range goid.Blocks {
-				if iff, ok := b.Instrs[len(b.Instrs)-1].(*ssa.If); ok && c.Path(iff.Cond, nil) == "$0.includeBase" {
-					if r, isR := b.Succs[0].Instrs[len(b.Succs[0].Instrs)-1].(*ssa.Return); isR && c.Path(r.Results[0], nil) == under {
-						okG = true
-					}
+		if under != nil && other != nil && len(returnsOf(goid)) == 2 {
+			// the relative form is returned exactly on the includeBase edge
+			for _, cnd := range c.condsOf(under.Block()) {
+				if cnd == "$0.includeBase=true" {
+					okG = true
+				}
+			}
+			for _, cnd := range c.condsOf(other.Block()) {
+				if cnd == "$0.includeBase=true" {
+					okG = false
 				}
 			}
 		}
@@ -347,7 +370,9 @@ func runC18(c *Ctx) {
 	if ps := c.Method(pDT, "Transformer", "processServices"); ps != nil {
 		c.Analysed(ps)
 		c.mapLiteralRule("C18.P1", "service", ps, "document.Service", map[string]func(string) bool{
-			`"id"`:              func(s string) bool { return strings.Contains(s, "getObjectID(") && strings.Contains(s, "(document.Service).ID(") },
+			`"id"`: func(s string) bool {
+				return strings.Contains(s, "getObjectID(") && strings.Contains(s, "(document.Service).ID(")
+			},
 			`"type"`:            func(s string) bool { return strings.HasPrefix(s, "(document.Service).Type(") },
 			`"serviceEndpoint"`: func(s string) bool { return strings.HasPrefix(s, "(document.Service).ServiceEndpoint(") },
 		})
@@ -481,56 +506,81 @@ func (c *Ctx) oneAppendPerIteration(rule, key string, f *ssa.Function, sliceType
 func (c *Ctx) keyMaterialTable(pk *ssa.Function) {
 	type row struct{ member, value string }
 	var rows []string
+	// the stores may sit in processKeys itself or in a helper that receives the external key map
+	type scanJob struct {
+		f     *ssa.Function
+		env   Env
+		isMap func(v ssa.Value) bool
+	}
+	jobs := []scanJob{{pk, nil, func(v ssa.Value) bool {
+		mm, isMM := v.(*ssa.MakeMap)
+		return isMM && typeShort(mm.Type()) == "document.PublicKey"
+	}}}
 	forEachInstr(pk, func(in ssa.Instruction) {
-		mu, ok := in.(*ssa.MapUpdate)
+		cl, ok := in.(*ssa.Call)
 		if !ok {
 			return
 		}
-		mm, isMM := mu.Map.(*ssa.MakeMap)
-		if !isMM || typeShort(mm.Type()) != "document.PublicKey" {
+		g := cl.Call.StaticCallee()
+		if g == nil || !inModule(g) || g.Blocks == nil {
 			return
 		}
-		k := unquote(c.Path(mu.Key, nil))
-		if k != "publicKeyJwk" && k != "publicKeyBase58" && k != "publicKeyMultibase" {
-			return
-		}
-		v := c.Path(mu.Value, nil)
-		// conditions on the key type along the dominating If chain
-		var conds []string
-		for b := mu.Block(); b != nil; b = b.Idom() {
-			id := b.Idom()
-			if id == nil {
-				break
+		for i, a := range cl.Call.Args {
+			if mm, isMM := a.(*ssa.MakeMap); isMM && typeShort(mm.Type()) == "document.PublicKey" && i < len(g.Params) {
+				p := g.Params[i]
+				jobs = append(jobs, scanJob{g, c.calleeEnv(&cl.Call, g, nil), func(v ssa.Value) bool { return v == ssa.Value(p) }})
 			}
-			if iff, isIf := id.Instrs[len(id.Instrs)-1].(*ssa.If); isIf && len(b.Preds) == 1 {
-				cp := c.Path(iff.Cond, nil)
-				if !strings.Contains(cp, "#1") && (strings.Contains(cp, ").Type(") || strings.Contains(cp, "PublicKeyJwk(") || strings.Contains(cp, "PublicKeyBase58(") || strings.Contains(cp, "PublicKeyMultibase(")) {
-					pol := id.Succs[0] == b
-					cp = strings.ReplaceAll(cp, "(document.PublicKey).", "")
-					cp = strings.ReplaceAll(cp, "(document.DIDDocument).PublicKeys($1)[ι]", "k")
-					conds = append([]string{fmt.Sprintf("%s=%v", cp, pol)}, conds...)
+		}
+	})
+	for _, job := range jobs {
+		env := job.env
+		forEachInstr(job.f, func(in ssa.Instruction) {
+			mu, ok := in.(*ssa.MapUpdate)
+			if !ok || !job.isMap(mu.Map) {
+				return
+			}
+			k := unquote(c.Path(mu.Key, env))
+			if k != "publicKeyJwk" && k != "publicKeyBase58" && k != "publicKeyMultibase" {
+				return
+			}
+			v := c.Path(mu.Value, env)
+			// conditions on the key type along the dominating If chain
+			var conds []string
+			for b := mu.Block(); b != nil; b = b.Idom() {
+				id := b.Idom()
+				if id == nil {
+					break
+				}
+				if iff, isIf := id.Instrs[len(id.Instrs)-1].(*ssa.If); isIf && len(b.Preds) == 1 {
+					cp := c.Path(iff.Cond, env)
+					if !strings.Contains(cp, "#1") && (strings.Contains(cp, ").Type(") || strings.Contains(cp, "PublicKeyJwk(") || strings.Contains(cp, "PublicKeyBase58(") || strings.Contains(cp, "PublicKeyMultibase(")) {
+						pol := id.Succs[0] == b
+						cp = strings.ReplaceAll(cp, "(document.PublicKey).", "")
+						cp = strings.ReplaceAll(cp, "(document.DIDDocument).PublicKeys($1)[ι]", "k")
+						conds = append([]string{fmt.Sprintf("%s=%v", cp, pol)}, conds...)
+					}
 				}
 			}
-		}
-		val := "?"
-		switch {
-		case strings.HasPrefix(v, "github.com/btcsuite/btcutil/base58.Encode(") && strings.Contains(v, "getED2519PublicKey("):
-			val = "base58(ed25519 key from JWK)"
-		case strings.Contains(v, "go-multibase.Encode(") && strings.Contains(v, "getED2519PublicKey(") && strings.Contains(v, "go-multibase.Encode(122,"):
-			val = "multibase-base58btc(ed25519 key from JWK)"
-		case strings.HasSuffix(v, ").PublicKeyJwk((document.DIDDocument).PublicKeys($1)[ι])"):
-			val = "jwk passthrough"
-		case strings.HasSuffix(v, ").PublicKeyBase58((document.DIDDocument).PublicKeys($1)[ι])"):
-			val = "base58 passthrough"
-		case strings.HasSuffix(v, ").PublicKeyMultibase((document.DIDDocument).PublicKeys($1)[ι])"):
-			val = "multibase passthrough"
-		case v == "nil":
-			val = "nil"
-		default:
-			val = v
-		}
-		rows = append(rows, strings.Join(conds, " ∧ ")+" ⇒ "+k+" := "+val)
-	})
+			val := "?"
+			switch {
+			case strings.HasPrefix(v, "github.com/btcsuite/btcutil/base58.Encode(") && strings.Contains(v, "getED2519PublicKey("):
+				val = "base58(ed25519 key from JWK)"
+			case strings.Contains(v, "go-multibase.Encode(") && strings.Contains(v, "getED2519PublicKey(") && strings.Contains(v, "go-multibase.Encode(122,"):
+				val = "multibase-base58btc(ed25519 key from JWK)"
+			case strings.HasSuffix(v, ").PublicKeyJwk((document.DIDDocument).PublicKeys($1)[ι])"):
+				val = "jwk passthrough"
+			case strings.HasSuffix(v, ").PublicKeyBase58((document.DIDDocument).PublicKeys($1)[ι])"):
+				val = "base58 passthrough"
+			case strings.HasSuffix(v, ").PublicKeyMultibase((document.DIDDocument).PublicKeys($1)[ι])"):
+				val = "multibase passthrough"
+			case v == "nil":
+				val = "nil"
+			default:
+				val = v
+			}
+			rows = append(rows, strings.Join(conds, " ∧ ")+" ⇒ "+k+" := "+val)
+		})
+	}
 	sort.Strings(rows)
 	want := []string{
 		`(PublicKeyBase58(k) != "")=true ∧ (PublicKeyJwk(k) != nil)=false ⇒ publicKeyBase58 := base58 passthrough`,
@@ -611,7 +661,7 @@ func (c *Ctx) metadataMapping(pMeta string) {
 	// operation literals
 	for _, lit := range []struct {
 		fn, typ string
-		fields map[string]string
+		fields  map[string]string
 	}{
 		{"getPublishedOperations", "PublishedOperation", map[string]string{"Type": "Type", "OperationRequest": "OperationRequest", "TransactionTime": "TransactionTime", "TransactionNumber": "TransactionNumber", "ProtocolVersion": "ProtocolVersion", "CanonicalReference": "CanonicalReference", "EquivalentReferences": "EquivalentReferences", "AnchorOrigin": "AnchorOrigin"}},
 		{"getUnpublishedOperations", "UnpublishedOperation", map[string]string{"Type": "Type", "OperationRequest": "OperationRequest", "TransactionTime": "TransactionTime", "ProtocolVersion": "ProtocolVersion", "AnchorOrigin": "AnchorOrigin"}},
